@@ -228,7 +228,8 @@ func (s *sharedEntryAttributes) validateLeafRefs(ctx context.Context, resultChan
 func generateOptionalWarning(ctx context.Context, s Entry, lref string, resultChan chan<- *types.ValidationResultEntry) {
 	lrefval, err := s.getHighestPrecedenceLeafValue(ctx)
 	if err != nil {
-		resultChan <- types.NewValidationResultEntry(lrefval.Owner(), err, types.ValidationResultEntryTypeError)
+		// there is no leaf value in the error case, hence no owner
+		resultChan <- types.NewValidationResultEntry("unknown", err, types.ValidationResultEntryTypeError)
 		return
 	}
 	tvVal, err := lrefval.Update.Value()
